@@ -36,6 +36,7 @@ type c04Run struct {
 	upKinds        []string
 	storeLatencyUs int
 	junk           [][]byte // undecodable messages sent to the listeners while the clients work
+	churn          int      // short-lived stream connections that write one query and hang up
 	cache          string   // off, large, tiny
 	ttl            uint32
 	clients        int
@@ -275,6 +276,30 @@ func runWorkload(t *rapid.T, run c04Run, st *vfkit.Collector, label string) {
 		}()
 	}
 	defer close(stopJunk)
+	// ... and clients that do not wait for their answers: hundreds of short-lived connections to the stream listeners,
+	// each writing one query and hanging up at once, so that whatever a listener keeps per connection is given back (and
+	// handed to the next connection) while the query's handler is still at work.
+	if run.churn > 0 {
+		for w := 0; w < 8; w++ {
+			wg.Add(1)
+			go func(w int) {
+				defer wg.Done()
+				for i := 0; i < run.churn/8; i++ {
+					k := []string{"gnet", "gnet", "tcp"}[(w+i)%3]
+					c, err := net.DialTimeout("tcp", fmt.Sprintf("%s:%d", block+"10", ListenerPorts[k]), time.Second)
+					if err != nil {
+						continue
+					}
+					tr := pool[(w*131+i)%len(pool)]
+					c.Write(frame(Query(uint16(i), tr.name, tr.typ, tr.class, false)))
+					if i%3 == 0 {
+						time.Sleep(200 * time.Microsecond)
+					}
+					c.Close()
+				}
+			}(w)
+		}
+	}
 	for c := 0; c < run.clients; c++ {
 		wg.Add(1)
 		go func(c int) {
@@ -523,7 +548,7 @@ func runWorkload(t *rapid.T, run c04Run, st *vfkit.Collector, label string) {
 		}
 	}
 	nontrivial := maxInflight >= 8 && len(run.listeners) >= 2 && len(run.upKinds) >= 2
-	classes := []string{"cache=" + run.cache, fmt.Sprintf("junk-sender=%v", len(run.junk) > 0)}
+	classes := []string{"cache=" + run.cache, fmt.Sprintf("junk-sender=%v", len(run.junk) > 0), fmt.Sprintf("connection-churn=%v", run.churn > 0)}
 	if run.cancelRich {
 		classes = append(classes, "cancel-rich")
 	}
@@ -558,6 +583,9 @@ func genRun(t *rapid.T, cancelRich bool) c04Run {
 	run.upKinds = rapid.SliceOfNDistinct(rapid.SampledFrom([]string{"udp", "tcp", "tcp+pipeline", "tls", "tls+pipeline", "https", "quic", "h3"}), 2, 4, func(s string) string { return s }).Draw(t, "upstreams")
 	run.cache = rapid.SampledFrom([]string{"off", "large", "tiny", "tiny", "store", "tiny+store"}).Draw(t, "cache")
 	run.storeLatencyUs = rapid.SampledFrom([]int{0, 300, 2000}).Draw(t, "storeLatencyMicros")
+	if cancelRich && rapid.Bool().Draw(t, "connectionChurn") {
+		run.churn = rapid.IntRange(640, 1200).Draw(t, "churnConnections")
+	}
 	if rapid.Bool().Draw(t, "junkSender") {
 		for i := rapid.IntRange(3, 12).Draw(t, "junkMessages"); i > 0; i-- {
 			// a message with 1-4 complete records of mixed kinds whose last record is cut off, or whose counts promise more
